@@ -492,21 +492,28 @@ class WorkerPool:
             except StopIteration:
               exhausted = True
           if tasks:
+            # Takes the capacity of the worker here and now: another run (of
+            # this or of another pool) may have seen the same worker idle.
+            if (reservation := worker.reserve()) is None:
+              continue
             task = tasks.pop().set(worker=worker)
             logging.info(
                 'chainable: %s', f'submitting task to worker {worker.address}'
             )
             aiter_until_complete = _iterate_until_complete(
                 worker.async_iterate(
-                    task, generator_result_queue=generator_result_queue
+                    task,
+                    generator_result_queue=generator_result_queue,
+                    reservation=reservation,
                 ),
                 output_queue=output_queue,
             )
-            task = task.set(
-                state=asyncio.run_coroutine_threadsafe(
-                    aiter_until_complete, event_loop
-                ),
+            state = asyncio.run_coroutine_threadsafe(
+                aiter_until_complete, event_loop
             )
+            # Also frees the capacity when the coroutine never got to run.
+            state.add_done_callback(lambda _, r=reservation: r.cancel())
+            task = task.set(state=state)
             running_tasks.append(task)
         while not output_queue.empty():
           batch_cnt += 1
